@@ -414,6 +414,14 @@ def w_fl_ct : ConvTable :=
 example : check10 w_fl_ct "t" w_fl [.alterColumn "q" none (some ("INTEGER", "Integer")) none .keep] (w_fl_after (.real "3.7" 3 true)) [] ≠ [] := by decide
 example : check10 w_fl_ct "t" w_fl [.alterColumn "q" none (some ("INTEGER", "Integer")) none .keep] (w_fl_after (.int 3)) [] = [] := by decide
 
+/-- … and a dropped named PRIMARY KEY that is still there (unnamed) after the batch -/
+def w_pkn : Tbl := { schema := { cols := C11.w_t0.schema.cols, pk := some { kind := .pk, name := some "pk_t", cols := ["id"] },
+                                 uniques := [], checks := [], fks := [], indexes := [] }, rows := C11.w_t0.rows }
+def w_nopk : Tbl := { schema := { cols := C11.w_t0.schema.cols.map (fun c => { c with pk := false }), pk := none,
+                                  uniques := [], checks := [], fks := [], indexes := [] }, rows := C11.w_t0.rows }
+example : check10 [] "t" w_pkn [.dropConstraint "pk_t"] C11.w_t0 [] ≠ [] := by decide
+example : check10 [] "t" w_pkn [.dropConstraint "pk_t"] w_nopk [] = [] := by decide
+
 /-- … and a partial index that came back without its `WHERE` predicate -/
 example : check10 [] "t"
     { C11.w_t0 with schema := { C11.w_t0.schema with indexes := [{ name := "ix", cols := ["a"], unique := true, where_ := some "a > 0" }] } }
